@@ -81,10 +81,35 @@ func (p *Prog) verifyFunc(fn *ssa.Function, ct *Contract) (res *FuncResult) {
 			}
 		}
 		scan(fn)
+		// labels without a call site in this function: take the result type from
+		// the callee itself when it exists in the program (so that a removed call
+		// makes calls(L)/last(L) obligations fail instead of the contract being rejected)
+		for key, labs := range p.countOf {
+			for _, lab := range labs {
+				if !vc.labels[lab] {
+					continue
+				}
+				if _, seen := vc.lastType[lab]; seen {
+					continue
+				}
+				if cf := p.funcByKey(key); cf != nil {
+					if vc.lastType == nil {
+						vc.lastType = map[string]types.Type{}
+					}
+					rt := vc.resultType(cf.Signature)
+					vc.lastType[lab] = rt
+					for i, kd := range p.lay.of(rt).Kinds {
+						vc.ensureKey(fmt.Sprintf("g.last.%s:%d", lab, i), kd.Sort())
+						vc.ensureKey(fmt.Sprintf("g.first.%s:%d", lab, i), kd.Sort())
+					}
+				}
+			}
+		}
 	}
 	fr := vc.newFrame(fn, 0)
 	fr.top = true
 	fr.contract = ct
+	fr.markHelperAssertions()
 	st := &State{pc: tTrue, v: map[string]Term{}}
 	// initial heap symbols
 	for _, k := range allKinds {
